@@ -1,7 +1,7 @@
 ------------------------------- MODULE CborMC -------------------------------
 (* Bounded exploration of Cbor.tla.                                                                         *)
-(*   MC.cfg        every item sequence of length <= MaxLen over a small universe (every kind, both sides of  *)
-(*                 a head-width boundary, containers nesting up to MaxLen deep): RoundTrip (the independent  *)
+(*   MC.cfg        every item sequence of length <= 4 over 19 items (thorough: <= 5) - every kind, both      *)
+(*                 sides of a head-width boundary, containers nesting up to MaxLen deep: RoundTrip (the independent  *)
 (*                 reader DecAll inverts EncAll), SkipAgree (whole-item skipping on items = on bytes, for    *)
 (*                 every start position, complete or truncated), EndsInv                                    *)
 (*   MC_dec.cfg    the decoder state machine over every item sequence of a smaller universe: every order of  *)
@@ -22,6 +22,7 @@ UniSmall == {U(0), U(23), U(24), U(256), It("negint", W8(0)), It("bytes", <<>>),
              It("bool", <<1>>), It("null", <<>>), It("undef", <<>>), It("ibytes", <<>>), It("itext", <<>>),
              It("iarray", <<>>), It("imap", <<>>), It("break", <<>>),
              It("f32", <<63, 192, 0, 0>>), It("f64", <<63, 185, 153, 153, 153, 153, 153, 154>>)}
+UniQuick == UniSmall \ {U(0), It("undef", <<>>), It("itext", <<>>), It("array", W8(0))}
 UniDec == {U(1), It("text", <<97>>), It("array", W8(1)), It("map", W8(1)), It("tag", W8(1)),
            It("iarray", <<>>), It("break", <<>>), It("f32", <<63, 192, 0, 0>>), It("null", <<>>)}
 UniGen == UniSmall \cup
